@@ -25,6 +25,7 @@ EXPLANATION = (
     "decided: behaviour under real inter-chunk delays (C08) and kernel semantics."
     ' Second session: what the decoder is handed is computed by a small dataflow over the receive buffer (must be exactly recv(6) followed by recv(pdu_length)); header fields are extracted semantically (struct.unpack / int.from_bytes / index spellings); the connect() timeout typestate is path-sensitive over pure local tests (sock_model.ConnectModel).'
     " Fourth session: (tls-portable) no flags argument on reads / writes of a socket that may be an SSLSocket; (ready-probe) once select() reports the socket readable `ready` never answers False; socket reads are counted per path through the loop; the length model names reads by their order on the path so branches can be joined; (gap-tolerant) borrows C08's wait rules."
+    " Fifth round: (one-per-call) at most one PDU read per pass of the reactor (counted structurally over the paths of a pass, not by text), one event source per pass, the DIMSE queue is served before a release request is acted on; (gap-tolerant) the idle timer is restarted after the read, and C08's bounded waits are borrowed; socket reads may go through a helper whose body is the read; the short-header guard may be `not header or len(header) < 6`. The rule that the event be queued before its PDU was removed (the order inside one pass does not matter - a false alarm found by a correct twin)."
 )
 
 
@@ -32,7 +33,7 @@ def run(repo: Repo, rep: Report, tier: str) -> None:
     rep.rule("recv-exact", "recv(n) loops until n bytes or EOF, never asks the socket for more than the remaining count, appends exactly what it read")
     rep.rule("header-body", "_read_pdu_data reads exactly 6 bytes, then exactly pdu_length bytes from the big-endian length field")
     rep.rule("short-is-closed", "a short or failed read is Evt17 and never reaches the decoder")
-    rep.rule("one-per-call", "each call queues one event and at most one PDU, event first, from the reactor thread only")
+    rep.rule("one-per-call", "each call queues one event and at most one PDU, from the reactor thread only")
     tr = repo.mod("transport")
     fn = repo.func("transport", "AssociationSocket.recv")
     fq = "transport.AssociationSocket.recv"
